@@ -13,10 +13,14 @@ package drf
 import (
 	"context"
 	"fmt"
+	"path/filepath"
+	"regexp"
 	"sync"
+	"sync/atomic"
 	"testing"
 	"time"
 
+	"github.com/siderolabs/gen/optional"
 	"go.uber.org/zap"
 
 	"github.com/cosi-project/runtime/pkg/controller"
@@ -27,11 +31,26 @@ import (
 	"github.com/cosi-project/runtime/pkg/state"
 	"github.com/cosi-project/runtime/pkg/state/impl/inmem"
 	"github.com/cosi-project/runtime/pkg/state/impl/namespaced"
+	"github.com/cosi-project/runtime/pkg/state/impl/store"
+	"github.com/cosi-project/runtime/pkg/state/impl/store/bolt"
+	"github.com/cosi-project/runtime/pkg/state/protobuf/client"
+	"github.com/cosi-project/runtime/pkg/state/protobuf/server"
+	"go.etcd.io/bbolt"
 	"verif.local/harness/hx"
+	"verif.local/harness/lb"
 	"verif.local/harness/px"
+	"verif.local/harness/tx"
 )
 
-var sink int
+var sink atomic.Int64
+
+func init() { lb.RegisterConformanceResources() }
+
+var reR = regexp.MustCompile("^r[0-4]$")
+
+func optionalID(id string) optional.Optional[resource.ID] { return optional.Some(resource.ID(id)) }
+
+func optionalUint(n uint) optional.Optional[uint] { return optional.Some(n) }
 
 // reads touches everything a caller may look at in a resource.
 func reads(r resource.Resource) {
@@ -49,7 +68,9 @@ func reads(r resource.Resource) {
 	for k, v := range md.Annotations().Raw() {
 		n += len(k) + len(v)
 	}
-	n += len(fmt.Sprint(r.Spec()))
+	if !resource.IsTombstone(r) {
+		n += len(fmt.Sprint(r.Spec()))
+	}
 	_ = n
 }
 
@@ -124,7 +145,7 @@ func TestDRF_State(t *testing.T) {
 				st.RemoveFinalizer(ctx, hx.IntPtr("a"), "f2") //nolint:errcheck
 			},
 			func() {
-				r, err := st.Modify(ctx, lab("a", 3, "m"), func(r resource.Resource) error {
+				r, err := st.ModifyWithResult(ctx, lab("a", 3, "m"), func(r resource.Resource) error {
 					r.Metadata().Annotations().Set("k", "v")
 					return nil
 				})
@@ -198,7 +219,7 @@ func TestDRF_Watch(t *testing.T) {
 			},
 			func() {
 				ch := make(chan state.Event)
-				st.WatchKind(ctx, hx.IntKind(), ch, state.WithKindStartFromTailEvents(2)) //nolint:errcheck
+				st.WatchKind(ctx, hx.IntKind(), ch, state.WithKindTailEvents(2)) //nolint:errcheck
 				consume(ch)
 			},
 			func() {
@@ -301,25 +322,25 @@ func TestDRF_DepDB(t *testing.T) {
 			deps, err := db.GetDependentControllers(in("T", "x"))
 			if err == nil {
 				for _, d := range deps {
-					sink += len(d)
+					sink.Add(int64(len(d)))
 				}
 			}
 			ins, err := db.GetControllerInputs("B")
 			if err == nil {
 				for _, i := range ins {
-					sink += len(i.Type)
+					sink.Add(int64(len(i.Type)))
 				}
 			}
 			g, err := db.Export()
 			if err == nil {
-				sink += len(g.Edges)
+				sink.Add(int64(len(g.Edges)))
 			}
 		}
 		par(
 			walk, walk,
-			func() { db.DeleteControllerInput("A", in("T", "")); db.AddControllerInput("A", in("T", "")) }, //nolint:errcheck
-			func() { db.DeleteControllerInput("D", in("T", "x")); db.AddControllerInput("D", in("T", "y")) }, //nolint:errcheck
-			func() { db.AddControllerInput("B", in("U", "")); db.DeleteControllerInput("B", in("U", "")) }, //nolint:errcheck
+			func() { db.DeleteControllerInput("A", in("T", "")); db.AddControllerInput("A", in("T", "")) },         //nolint:errcheck
+			func() { db.DeleteControllerInput("D", in("T", "x")); db.AddControllerInput("D", in("T", "y")) },       //nolint:errcheck
+			func() { db.AddControllerInput("B", in("U", "")); db.DeleteControllerInput("B", in("U", "")) },         //nolint:errcheck
 			func() { db.AddControllerOutput("E", controller.Output{Type: "O", Kind: controller.OutputExclusive}) }, //nolint:errcheck
 		)
 	}
@@ -344,7 +365,8 @@ func TestDRF_Queue(t *testing.T) {
 					case <-ctx.Done():
 						return
 					case item := <-q.Get():
-						sink += item.Value()
+						_, v := item.Get()
+						sink.Add(int64(v))
 						n++
 						if n%2 == w%2 {
 							item.Requeue(time.Now())
@@ -356,7 +378,7 @@ func TestDRF_Queue(t *testing.T) {
 		}
 		for i := 0; i < 20; i++ {
 			q.Put([]string{"k1", "k2"}[i%2], i)
-			sink += int(q.Len())
+			sink.Add(int64(int(q.Len())))
 		}
 		time.Sleep(time.Millisecond)
 		cancel()
@@ -428,14 +450,14 @@ func TestDRF_Runtime(t *testing.T) {
 				}
 			},
 			func() {
-				rt.RegisterController(mk("late"))                                                                                                  //nolint:errcheck
+				rt.RegisterController(mk("late"))                                                                                                                                       //nolint:errcheck
 				rt.RegisterController(&px.Probe{NameV: "bad", InputsV: []controller.Input{intIn, {Namespace: hx.NS, Type: conformance.IntResourceType, Kind: controller.InputStrong}}}) //nolint:errcheck
 			},
 			func() {
 				for i := 0; i < 3; i++ {
 					g, err := rt.GetDependencyGraph()
 					if err == nil {
-						sink += len(g.Edges)
+						sink.Add(int64(len(g.Edges)))
 					}
 				}
 			},
@@ -443,5 +465,169 @@ func TestDRF_Runtime(t *testing.T) {
 		time.Sleep(10 * time.Millisecond)
 		cancel()
 		<-done
+	}
+}
+
+// TestDRF_Transform: the generic controllers driving finalizer lifecycles against an external actor that
+// creates, updates, tears down and destroys inputs and pins outputs (C06 C07).
+func TestDRF_Transform(t *testing.T) {
+	for _, fl := range []string{"transform", "transform-fin", "qtransform", "qtransform-while", "cleanup"} {
+		for it := 0; it < 4; it++ {
+			ctx, cancel := context.WithCancel(context.Background())
+			st := state.WrapCore(namespaced.NewState(inmem.Build))
+			rt, err := runtime.NewRuntime(st, zap.NewNop(), options.WithMetrics(false))
+			if err != nil {
+				t.Fatal(err)
+			}
+			if err := tx.RegisterFlavour(rt, fl); err != nil {
+				t.Fatal(err)
+			}
+			done := make(chan struct{})
+			go func() { rt.Run(ctx); close(done) }() //nolint:errcheck
+			actor := func(id string) func() {
+				return func() {
+					st.Create(ctx, tx.NewA(id, 1))                                             //nolint:errcheck
+					st.UpdateWithConflicts(ctx, tx.APtr(id), func(r resource.Resource) error { //nolint:errcheck
+						r.(*tx.A).TypedSpec().Int++
+						return nil
+					})
+					time.Sleep(time.Millisecond)
+					st.AddFinalizer(ctx, tx.BPtr(id), "third") //nolint:errcheck
+					tctx, tcancel := context.WithTimeout(ctx, 20*time.Millisecond)
+					st.TeardownAndDestroy(tctx, tx.APtr(id)) //nolint:errcheck
+					tcancel()
+					st.RemoveFinalizer(ctx, tx.BPtr(id), "third") //nolint:errcheck
+					tctx, tcancel = context.WithTimeout(ctx, 50*time.Millisecond)
+					st.TeardownAndDestroy(tctx, tx.APtr(id)) //nolint:errcheck
+					tcancel()
+					st.Create(ctx, tx.NewA(id, 5)) //nolint:errcheck
+				}
+			}
+			par(actor("a"), actor("b"), func() {
+				for i := 0; i < 5; i++ {
+					readList(st.List(ctx, tx.NewB("x").Metadata()))
+					readList(st.List(ctx, tx.NewA("x", 0).Metadata()))
+					time.Sleep(time.Millisecond)
+				}
+			})
+			time.Sleep(5 * time.Millisecond)
+			cancel()
+			<-done
+		}
+	}
+}
+
+// TestDRF_Bolt: a bbolt-backed state whose first use is concurrent, with writers and readers (C10 C01).
+func TestDRF_Bolt(t *testing.T) {
+	for it := 0; it < 6; it++ {
+		ctx := context.Background()
+		path := filepath.Join(t.TempDir(), "db")
+		open := func() (*inmem.State, *bolt.BackingStore) {
+			bs, err := bolt.NewBackingStore(func() (*bbolt.DB, error) { return bbolt.Open(path, 0o600, nil) }, store.ProtobufMarshaler{})
+			if err != nil {
+				t.Fatal(err)
+			}
+			return inmem.NewStateWithOptions(inmem.WithBackingStore(bs.WithNamespace(hx.NS)))(hx.NS), bs
+		}
+		core, bs := open()
+		st := state.WrapCore(core)
+		st.Create(ctx, lab("a", 1, "x")) //nolint:errcheck
+		st.Create(ctx, lab("b", 1, "y")) //nolint:errcheck
+		bs.Close()                       //nolint:errcheck
+		core, bs = open()
+		st = state.WrapCore(core)
+		par(
+			func() {
+				r, err := st.Get(ctx, hx.IntPtr("a"))
+				if err == nil {
+					reads(r)
+				}
+			},
+			func() { readList(st.List(ctx, hx.IntKind())) },
+			func() {
+				st.UpdateWithConflicts(ctx, lab("a", 0, "").Metadata(), func(r resource.Resource) error { //nolint:errcheck
+					r.(*conformance.IntResource).SetValue(9)
+					return nil
+				})
+			},
+			func() { st.Destroy(ctx, hx.IntPtr("b")) },  //nolint:errcheck
+			func() { st.Create(ctx, lab("c", 1, "x")) }, //nolint:errcheck
+		)
+		bs.Close() //nolint:errcheck
+	}
+}
+
+// TestDRF_Wire: the gRPC client adapter and server over the in-process loopback, with remote watches that
+// are consumed while writers commit on both sides (C11 C13 C14).
+func TestDRF_Wire(t *testing.T) {
+	for it := 0; it < 25; it++ {
+		ctx, cancel := context.WithCancel(context.Background())
+		backend := state.WrapCore(namespaced.NewState(inmem.Build))
+		remote := state.WrapCore(client.NewAdapter(lb.New(server.NewState(backend))))
+		backend.Create(ctx, lab("a", 0, "x")) //nolint:errcheck
+		var wg sync.WaitGroup
+		consume := func(ch chan state.Event) {
+			wg.Add(1)
+			go func() {
+				defer wg.Done()
+				for {
+					select {
+					case <-ctx.Done():
+						return
+					case ev := <-ch:
+						reads(ev.Resource)
+						reads(ev.Old)
+					}
+				}
+			}()
+		}
+		ch1, ch2, ch3 := make(chan state.Event), make(chan state.Event), make(chan []state.Event)
+		remote.Watch(ctx, hx.IntPtr("a"), ch1)                                                                             //nolint:errcheck
+		remote.WatchKind(ctx, hx.IntKind(), ch2, state.WithBootstrapContents(true))                                        //nolint:errcheck
+		remote.WatchKindAggregated(ctx, hx.IntKind(), ch3, state.WithBootstrapBookmark(true), state.WithKindTailEvents(1)) //nolint:errcheck
+		consume(ch1)
+		consume(ch2)
+		wg.Add(1)
+		go func() {
+			defer wg.Done()
+			for {
+				select {
+				case <-ctx.Done():
+					return
+				case evs := <-ch3:
+					for _, ev := range evs {
+						reads(ev.Resource)
+					}
+				}
+			}
+		}()
+		par(
+			func() {
+				for i := 0; i < 5; i++ {
+					remote.UpdateWithConflicts(ctx, lab("a", 0, "").Metadata(), func(r resource.Resource) error { //nolint:errcheck
+						r.(*conformance.IntResource).SetValue(i)
+						return nil
+					})
+				}
+			},
+			func() {
+				for i := 0; i < 3; i++ {
+					backend.Create(ctx, lab("b", i, "y")) //nolint:errcheck
+					remote.Destroy(ctx, hx.IntPtr("b"))   //nolint:errcheck
+				}
+			},
+			func() {
+				for i := 0; i < 3; i++ {
+					readList(remote.List(ctx, hx.IntKind(), state.WithLabelQuery(resource.LabelExists("l"))))
+					r, err := remote.Get(ctx, hx.IntPtr("a"))
+					if err == nil {
+						reads(r)
+					}
+				}
+			},
+		)
+		time.Sleep(2 * time.Millisecond)
+		cancel()
+		wg.Wait()
 	}
 }
